@@ -283,6 +283,29 @@ def compact_inputs(tier, rng):
             cells.pop(rng.randrange(len(cells)))
         rng.shuffle(cells)
         lists.append(cells)
+    # long uniform runs: every cell of resolution r under a run of consecutive quintant slots (whole quintants side by side, within a face and across
+    # two faces) -- the inputs a bulk / run-collapsing fast path is written for
+    for (t0, k, r) in ([(0, 4, 5), (4, 4, 5), (56, 4, 5), (3, 5, 5), (10, 5, 5), (8, 4, 6)] if tier == 'quick' else
+                       [(t, k, r) for t in range(0, 57, 4) for k in (3, 4, 5) for r in (5, 6)] + [(rng.randrange(55), 5, 6) for _ in range(10)]):
+        cells = []
+        for t6 in range(t0, min(60, t0 + k)):
+            cells += sorted(ref_children_set(ref_id(t6, 0, 1), r))
+        lists.append(cells)
+        if rng.random() < 0.5:
+            d = list(cells); d.pop(rng.randrange(len(d))); lists.append(d)
+    # the whole globe as one split chain from the world cell down to resolution R: at every level the siblings of the chain cell, at the bottom the
+    # complete group -- the deepest cascade there is (R + 1 merges), ending in the world cell
+    from refids import ref_parent as _rp
+    for R in ([29, 28, 12] if tier == 'quick' else [29, 29, 28, 27, 20, 12, 5, 3]):
+        cur = ref_id(rng.randrange(60), rng.randrange(4 ** (R - 1)), R)
+        cells = []
+        for rr in range(R, -1, -1):
+            par = _rp(cur, rr - 1)
+            sib = sorted(ref_children_set(par, rr))
+            cells += sib if rr == R else [c for c in sib if c != cur]
+            cur = par
+        lists.append(sorted(cells)); lists.append(sorted(cells, reverse=True))
+        sh = list(cells); rng.shuffle(sh); lists.append(sh + [rng.choice(cells)])
     # arithmetic progressions of ids with every plausible stride (the algorithm is stride based): cousins that look like siblings
     from refids import ref_decode
     for _ in range(60 if tier == 'quick' else 1500):
@@ -359,6 +382,19 @@ def uncompact_inputs(tier, rng):
             if rng.random() < 0.2:
                 cells.append(c)
         cases.append((t, cells))
+    # sibling families in every order, with the parent or finer fragments mixed in (a shortcut that recognises a run by its end points only)
+    import itertools as _it
+    from refids import ref_parent as _rp2
+    for _ in range(25 if tier == 'quick' else 600):
+        r = rng.randint(2, MAXV - 1)
+        c = random_valid_id(rng, r, r)
+        fam = sorted(ref_children_set(_rp2(c, r - 1), r))
+        t = min(MAXV, r + rng.randint(1, 2))
+        perm = list(rng.choice(list(_it.permutations(fam))))
+        cases.append((t, perm))
+        g = sorted(ref_children_set(fam[1], min(MAXV, r + 1)))
+        cases.append((t, [fam[0], g[0], g[-1], fam[3]]))
+        cases.append((t, [fam[0], fam[2], fam[1], fam[3], random_valid_id(rng, r, r)]))
     for t in range(-1, 4):
         cases.append((t, [0]))
         cases.append((t, [0, ref_id(3, 0, 0)]))
